@@ -175,6 +175,17 @@ def run_case(case):
     for round_ in range(len(gone) + 2):
         state = (dict(db), target.root_hash, dict(target.ref_count) if target.is_pruning else None)
         line, out, exc = attempt()
+        if kind in ("set", "del") and tg == "0" and not target.is_pruning and (exc is None or isinstance(exc, MissingTrieNode)):
+            # raw level (HexRaw.rawOp: the statement-by-statement transcription over raw nodes) on the database as it was
+            # before the call, with the bodies that are missing: the same outcome — the node it stops at, or root + entries
+            rv = probe[2] if kind == "set" else "none"
+            if exc is None:
+                added = sorted((a.hex(), b.hex()) for a, b in db.items() if a not in state[0])
+                rexp = "root=%s added=%s" % (hx(target.root_hash), ",".join("%s:%s" % ab for ab in added) if added else "-")
+            else:
+                rexp = "exn missing %s" % hx(bytes(exc.missing_node_hash))
+            res.emit("hx.rawop %s %s %s" % (hx(state[1]), hx(key), rv if rv != "" else "-"), rexp)
+            res.tags.add("raw-level-missing-tied" if exc is not None else "raw-level-tied")
         if kind == "exists" and exc is None:
             # the model answers exists() through get(): compare the value's emptiness
             res.emit(line, "v " + hx(target.get(key)))
